@@ -2,18 +2,18 @@ SPECIFICATION MCSpec
 CONSTANTS
   ARD = 6
   MaxA = 3
-  MaxB = 3
-  MaxBlocks = 6
-  UseRoles = {1, 3}
-  MinH2 = 3
-  MinH3 = 2
-  MinH4 = 0
-  Dep3 = 1
+  MaxB = 2
+  MaxBlocks = 5
+  UseRoles = {1, 2, 3}
+  MinH2 = 1
+  MinH3 = 3
+  MinH4 = 2
+  Dep3 = 2
   FundingRole = FALSE
   MaxExplored = 1
-  MaxDup = 1
+  MaxDup = 0
   MaxRestarts = 1
-  Intermediate = TRUE
+  Intermediate = FALSE
 INVARIANT EnvConsistent
 INVARIANT IdleIsSynced
 INVARIANT EmitScripts
